@@ -198,6 +198,19 @@ pub fn run(ctx: &mut RunCtx<'_>) -> Option<Violation> {
             _ => Place::Chain,
         })
         .collect();
+    // the value assignment's OWN type: plain, a constrained INTEGER that contains the value, or a type
+    // reference defined next to it (`n VInt ::= 5` with `VInt ::= INTEGER`)
+    let own: Vec<u64> = slots.iter().map(|_| l.draw(4)).collect();
+    let own_type = |i: usize, s: &Slot| -> String {
+        match (s, own[i]) {
+            (Slot::Int(v), 2) => format!("INTEGER ({}..{})", v.saturating_sub(3), v.saturating_add(5)),
+            (Slot::Int(_), 3) => "VInt".to_string(),
+            (Slot::Bool(_), 3) => "VBool".to_string(),
+            (Slot::Str(_), 3) => "VStr".to_string(),
+            (s, _) => s.kind().to_string(),
+        }
+    };
+    const TYPEDEFS: &str = "  VInt ::= INTEGER\n  VBool ::= BOOLEAN\n  VStr ::= UTF8String\n";
     let name_of = |i: usize| format!("vref{}", i);
     let render = |use_refs: bool, broken: Option<(usize, &str)>| -> String {
         let mut body = String::new();
@@ -221,10 +234,18 @@ pub fn run(ctx: &mut RunCtx<'_>) -> Option<Violation> {
         }
         body
     };
-    let decl = |i: usize| format!("  {} {} ::= {}\n", name_of(i), slots[i].kind(), slots[i].literal());
+    let decl = |i: usize| format!("  {} {} ::= {}\n", name_of(i), own_type(i, &slots[i]), slots[i].literal());
     let of_place = |pl: Place| -> Vec<usize> { (0..slots.len()).filter(|i| places[*i] == pl).collect() };
     let locals_first = l.draw(2) == 0;
     let c_alias = "SibCRenamed";
+    // the type definitions a local value assignment refers to are part of BOTH variants of Main
+    let main_typedefs = if of_place(Place::Local).iter().any(|i| own[*i] == 3) { TYPEDEFS } else { "" };
+    if (0..slots.len()).any(|i| places[i] != Place::Literal && own[i] == 3) {
+        ctx.counters.inc("probe.value_typed_by_type_reference");
+    }
+    if (0..slots.len()).any(|i| places[i] != Place::Literal && own[i] == 2 && matches!(slots[i], Slot::Int(_))) {
+        ctx.counters.inc("probe.value_typed_by_constrained_integer");
+    }
     let main_with = |body: String| -> String {
         let mut m = String::from("Main DEFINITIONS AUTOMATIC TAGS ::= BEGIN\n");
         let (a, b, c, ch) = (of_place(Place::SibA), of_place(Place::SibB), of_place(Place::SibC), of_place(Place::Chain));
@@ -244,6 +265,7 @@ pub fn run(ctx: &mut RunCtx<'_>) -> Option<Violation> {
             }
             m.push_str("  ;\n");
         }
+        m.push_str(main_typedefs);
         let locals: String = of_place(Place::Local).into_iter().map(decl).collect();
         if locals_first {
             m.push_str(&locals);
@@ -255,10 +277,13 @@ pub fn run(ctx: &mut RunCtx<'_>) -> Option<Violation> {
         m.push_str("END\n");
         m
     };
-    let literal_main = format!("Main DEFINITIONS AUTOMATIC TAGS ::= BEGIN\n{}END\n", render(false, None));
+    let literal_main = format!("Main DEFINITIONS AUTOMATIC TAGS ::= BEGIN\n{}{}END\n", main_typedefs, render(false, None));
     let ref_main = main_with(render(true, None));
     let sib = |name: &str, oid: &str, pl: Place, twist: i64| -> String {
         let mut m = format!("{name} {oid} DEFINITIONS AUTOMATIC TAGS ::= BEGIN\n");
+        if of_place(pl).iter().any(|i| own[*i] == 3) {
+            m.push_str(TYPEDEFS);
+        }
         for i in of_place(pl) {
             if twist != 0 {
                 // a decoy: same names, other values
@@ -267,7 +292,7 @@ pub fn run(ctx: &mut RunCtx<'_>) -> Option<Violation> {
                     Slot::Bool(b) => Slot::Bool(!b),
                     Slot::Str(s) => Slot::Str(format!("{s}-decoy")),
                 };
-                m.push_str(&format!("  {} {} ::= {}\n", name_of(i), s.kind(), s.literal()));
+                m.push_str(&format!("  {} {} ::= {}\n", name_of(i), own_type(i, &s), s.literal()));
             } else {
                 m.push_str(&decl(i));
             }
